@@ -8,6 +8,7 @@ import (
 	"io"
 	"math/rand/v2"
 	"net"
+	"net/http"
 	"net/netip"
 	"net/url"
 	"strings"
@@ -16,6 +17,7 @@ import (
 	"context"
 
 	"github.com/jech/storrent/hash"
+	"github.com/jech/storrent/known"
 	"github.com/jech/storrent/protocol"
 	"github.com/jech/storrent/tor"
 	"github.com/jech/storrent/tracker"
@@ -73,9 +75,10 @@ var sources = map[byte]string{
 	'A': "torrent-name", 'B': "magnet-dn", 'C': "file-path", 'D': "file-path", 'E': "file-path",
 	'F': "tracker-url", 'G': "tracker-url", 'H': "tracker-error", 'I': "webseed-url", 'J': "webseed-url",
 	'K': "peer-version", 'L': "peer-id", 'M': "tracker-url", 'N': "webseed-url",
+	'O': "tracker-peer-address",
 }
 
-const letters = "ABCDEFGHIJKLMN"
+const letters = "ABCDEFGHIJKLMNO"
 
 func marker(l byte) string { return "zq" + string(l) + "q" }
 
@@ -295,11 +298,44 @@ func runWorld(c *vk.C, get func(byte) string, single bool, seed uint64, tainted 
 	if err != nil {
 		return w, fmt.Errorf("peer 2: %v", err)
 	}
+	// a peer address as a tracker supplies it: the original (non-compact) reply format carries addresses as text,
+	// and the text of an IPv6 address may end in a zone.  The reply goes through the real HTTP tracker client; what it
+	// yields is added the way tor's announce callback adds it (AddKnown, kind Tracker).
+	zone := set('O', get('O'))
+	ipText := "2001:db8::7003%" + zone
+	trackerPeers := 0
+	{
+		reply := fmt.Sprintf("d8:intervali1800e5:peersld2:ip%d:%s4:porti7003eeee", len(ipText), ipText)
+		ln, err := net.Listen("tcp", "127.0.0.1:0")
+		if err != nil {
+			return w, fmt.Errorf("tracker listener: %v", err)
+		}
+		srv := &http.Server{Handler: http.HandlerFunc(func(rw http.ResponseWriter, r *http.Request) { rw.Write([]byte(reply)) })}
+		go srv.Serve(ln)
+		tr := tracker.New("http://" + ln.Addr().String() + "/announce")
+		ctx, cancel := context.WithTimeout(context.Background(), 10*time.Second)
+		err = tr.Announce(ctx, t1.Hash, t1.MyId, 50, g.Length, 0, 0, "", func(a netip.AddrPort) bool {
+			if t1.AddKnown(a, nil, "", known.Tracker) == nil {
+				trackerPeers++
+			}
+			return true
+		})
+		cancel()
+		srv.Close()
+		if err != nil {
+			return w, fmt.Errorf("announce to the local tracker: %v", err)
+		}
+		if trackerPeers == 0 {
+			w.notes = append(w.notes, "tracker client dropped the peer address "+fmt.Sprintf("%q", ipText))
+			delete(w.eff, 'O')
+		}
+	}
 	deadline := time.Now().Add(10 * time.Second)
 	for {
 		ks, _ := t1.GetKnowns()
 		ps, _ := t1.GetPeers()
 		gotV, got2 := ver == "", false
+		got3 := trackerPeers == 0
 		for _, k := range ks {
 			if k.Version == ver && ver != "" {
 				gotV = true
@@ -307,8 +343,11 @@ func runWorld(c *vk.C, get func(byte) string, single bool, seed uint64, tainted 
 			if k.Addr.Port() == 7002 && !k.SeenTime.IsZero() {
 				got2 = true
 			}
+			if k.Addr.Port() == 7003 {
+				got3 = true
+			}
 		}
-		if gotV && got2 && len(ps) == 2 {
+		if gotV && got2 && got3 && len(ps) == 2 {
 			for _, p := range ps {
 				p.Log.SetOutput(io.Discard)
 			}
